@@ -113,3 +113,43 @@ class FaultyStream:
 
     def __getattr__(self, name):
         return getattr(self._real, name)
+
+
+class LineFault:
+    """Raises `exc` at the k-th executed line (1-based) of the code whose file name ends with one of `suffixes`
+    (an asynchronous exception such as Ctrl-C landing between two bytecodes), or just counts lines when k is None.
+
+        with LineFault(("image/block.py",), None) as dry: f()      # dry.lines = number of line events
+        with LineFault(("image/block.py",), k, KeyboardInterrupt): f()
+    """
+
+    def __init__(self, suffixes, k=None, exc=KeyboardInterrupt):
+        self.suffixes, self.k, self.exc = tuple(suffixes), k, exc
+        self.lines = 0
+        self.fired = False
+
+    def _local(self, frame, event, arg):
+        if event == "line":
+            self.lines += 1
+            if self.k is not None and self.lines == self.k and not self.fired:
+                self.fired = True
+                raise self.exc()
+        return self._local
+
+    def _global(self, frame, event, arg):
+        if event == "call" and frame.f_code.co_filename.endswith(self.suffixes):
+            return self._local
+        return None
+
+    def __enter__(self):
+        import sys
+
+        self._old = sys.gettrace()
+        sys.settrace(self._global)
+        return self
+
+    def __exit__(self, *a):
+        import sys
+
+        sys.settrace(self._old)
+        return False
